@@ -16,8 +16,8 @@ From C14 Require Import Base.
 Definition go_decides (g : gbool) : bool := not_nil_g g.
 
 (* ---- pkg/cl/seqfunvars.go: setKeysItem / setKeysIf ---------------------------------------- *)
-(* The keyword switch knows :key :test :start :end :count :from-end; anything else (:test-not) is a
-   TypePanic; :count wants a fixnum or nil (nil = no limit: count stays MaxInt); the functions without
+(* The keyword switch of setKeysItem knows :key :test :test-not :start :end :count :from-end (:test-not
+   f is stored as the test "not f"); setKeysIf has neither :test nor :test-not (TypePanic); :count wants a fixnum or nil (nil = no limit: count stays MaxInt); the functions without
    :count reject the keyword whatever its value; sfv.end = -1 is None; count = MaxInt is None. *)
 Record sfv := mkSfv { v_start : nat; v_end : option nat; v_count : option Z; v_from_end : bool }.
 Definition no_count (f : fname) : bool :=
@@ -30,7 +30,6 @@ Definition is_if (f : fname) : bool :=
   | FFindIf | FPositionIf | FCountIf | FRemoveIf | FDeleteIf | FSubstituteIf | FNsubstituteIf => true
   | _ => false
   end.
-(* setKeysIf has no :test case at all *)
 Definition parse_sfv (c : call) : option sfv :=
   let st := match c_start c with Some s => s | None => 0%nat end in
   let counted :=
@@ -40,8 +39,7 @@ Definition parse_sfv (c : call) : option sfv :=
     | CNum z => if no_count (c_fn c) then None else Some (mkSfv st (c_end c) (Some z) (c_from_end c))
     end in
   match c_test c with
-  | TTestNot _ => None
-  | TTest _ => if is_if (c_fn c) then None else counted
+  | TTest _ | TTestNot _ => if is_if (c_fn c) then None else counted
   | TDefault => counted
   end.
 
